@@ -508,6 +508,9 @@ def rules(ctx):
         fn = P.func('_anneal.%s' % name)
         C11.marshalling_python(ctx, 'O', fn)
         C11.same_source_rules(ctx, 'O', fn)
+    # O2 premise: every label of the enumerated model is < num_binary_variables (mapping in step with the count)
+    from .C14 import registration_parity
+    registration_parity(ctx, 'O')
 
 
 # =====================================================================
